@@ -36,8 +36,8 @@ SPEC = dict(
                  "application-defined msgpack extension types and non-string map keys are out of scope (not generated)",
                  "a timestamp that is the very last byte sequence of a request body is read by tinylib's NextType as a raw extension and survives; "
                  "the generator keeps timestamps off that position",
-                 "theorems marshal_extract_id / no_dup_keys_reachable are stated for the /1/batch and OTLP-msgpack ingestion states; the /1/events "
-                 "state (whole map memoised) is covered by the correspondence check only"],
+                 "marshal_extract_id is proved for the /1/batch, OTLP-msgpack and /1/events (JSON) ingestion states; OTLP protobuf translation "
+                 "(husky) and the msgpack body of /1/events are not driven"],
     manifest=dict(
         text="Lean model of where a key lives when Payload.MarshalMsg runs (dedicated metadata field / memoised Go map / raw bytes), of "
              "MemoizeFields, Get, Exists, Set and of the sampling-key memoisation during extraction, with the reserved-name table regenerated from "
